@@ -10,6 +10,8 @@ mod c07;
 mod c08;
 mod c09;
 mod c10;
+mod c11;
+mod c12;
 mod c13;
 mod c14;
 mod c15;
@@ -58,6 +60,8 @@ fn main() {
         "C08" => { c08::run(&mut ctx); ctx.finish("corr.C08", "run_C08"); }
         "C09" => { c09::run(&mut ctx); ctx.finish("corr.C09", "run_C09"); }
         "C10" => { c10::run(&mut ctx); ctx.finish("corr.C10", "run_C10"); }
+        "C11" => { c11::run(&mut ctx); ctx.finish("corr.C11", "run_C11"); }
+        "C12" => { c12::run(&mut ctx); ctx.finish("corr.C12", "run_C12"); }
         "C13" => { c13::run(&mut ctx); ctx.finish("corr.C13", "run_C13"); }
         "C14" => { c14::run(&mut ctx); ctx.finish("corr.C14", "run_C14"); }
         "C15" => { c15::run(&mut ctx); ctx.finish("corr.C15", "run_C15"); }
